@@ -356,9 +356,18 @@ CORPUS = [
     (False, 0, [["A", 0, [0], 3, 2, 10 ** 9], ["C", 0], ["T", 500]], ["AL", 0, 2, 10 ** 9]),
 ]
 
+CORPUS += [
+    # seeded C29-a: crash while incoming/<si> exists and the final bucket dir already holds a complete share:
+    # a later upload session adds shares to an SI that has share 0 (kill anywhere inside the allocation / the write)
+    (False, 0, [["A", 0, [0], 4, 0, 10 ** 9], ["W", 0, 0, "0a0b0c0d"], ["C", 0], ["A", 0, [1], 4, 0, 10 ** 9]], ["W", 1, 0, "01020304"]),
+    # seeded C29-b / C29-c: a multi-write upload is closed; kill at every point of close() (after the rename the
+    # share must hold every written byte, its lease, and the allocated length)
+    (False, 0, [["A", 1, [0], 8, 0, 10 ** 9], ["W", 0, 0, "0102030405"], ["W", 0, 5, "060708"]], ["C", 0]),
+]
+
 
 def run(ctx):
-    n_cases = ctx.budget(36, 1500)
+    n_cases = 0 if os.environ.get("VERIF_CORPUS_ONLY") else ctx.budget(36, 1500)
     cases = []
     if ctx.replay:
         c = ctx.replay["case"]
